@@ -67,7 +67,7 @@ def run(ctx):
         g = gen.gen_loop(rng, m=m, N=N, kind=kind, exit_node=exit_node, wait_sync=ws, accum=False)
         iters = N if not ws else max(N, 1)
         need = (m + 1) * iters + (0 if ws else 1) + (1 if exit_node else 0)
-        for fuel in sorted({max(1, need - 1), need, need + 1, 200}):
+        for fuel in sorted({0, max(0, need - 1), need, need + 1, 200}):      # 0 is a budget too: no superstep at all
             runner = rng.choice(["sync", "async"])
             rc = dict(base_rc, runner=runner, inputs={"x": 0}, max_iterations=fuel, sched_seed=rng.randint(0, 10**6))
             cases.append((g, rc))
